@@ -43,6 +43,8 @@ type pieceRec struct {
 	rsps   int // responses the command processor sent to the driver
 	txs    []*txRec
 	closed bool
+	// dmaRsps counts the completion responses of the DMA engine to the command processor
+	dmaRsps int
 }
 
 type txRec struct {
@@ -73,6 +75,7 @@ type observer struct {
 	txPiece   map[string]*pieceRec
 	open      map[string][]*pieceRec // per GPU: pieces received by the CP and not answered yet
 	violation string
+	harness   string // a problem of the harness itself (never a finding)
 	labels    map[string]bool
 	nCPs      int
 	nDMAs     int
@@ -279,6 +282,11 @@ func (o *observer) closePiece(p *pieceRec) {
 		}
 	}
 	for i, k := range cover {
+		if k > 1 {
+			// harmless for the bytes moved: recorded only
+			o.labels["dma:byte-accessed-more-than-once"] = true
+			continue
+		}
 		if k != 1 {
 			o.fail("the %s copy request 0x%x+%d of command %s on %s accessed its byte %d (address 0x%x) %d times in %d memory transactions",
 				dir, p.addr, p.n, p.cmd.id, p.gpu, i, p.addr+uint64(i), k, len(p.txs))
@@ -323,7 +331,7 @@ func (h dmaHook) Func(ctx sim.HookCtx) {
 		for _, p := range o.open[h.gpu] {
 			if p.h2d == write && addr >= p.addr && addr+uint64(n) <= p.addr+uint64(p.n) {
 				if owner != nil {
-					o.fail("harness: DMA transaction 0x%x+%d matches two outstanding copy requests", addr, n)
+					o.harness = fmt.Sprintf("DMA transaction 0x%x+%d matches two outstanding copy requests", addr, n)
 					return
 				}
 				owner = p
@@ -332,6 +340,11 @@ func (h dmaHook) Func(ctx sim.HookCtx) {
 		kind := "read"
 		if write {
 			kind = "write"
+		}
+		if owner == nil && !write {
+			// a read outside every requested range changes nothing: recorded only
+			o.labels["dma:read-outside-requested-range"] = true
+			return
 		}
 		if owner == nil {
 			o.fail("the DMA engine of %s issued a %s of 0x%x+%d that lies in no outstanding copy request (%s)", h.gpu, kind, addr, n, o.describeOpen(h.gpu))
@@ -356,7 +369,10 @@ func (h dmaHook) Func(ctx sim.HookCtx) {
 		o.txs[id] = tx
 		o.txPiece[id] = owner
 		owner.txs = append(owner.txs, tx)
-	case sim.HookPosPortMsgRecvd:
+	case sim.HookPosPortMsgRetrieveIncoming:
+		// a transaction counts as answered when the DMA engine takes the response
+		// from its port (for a read: when it has the data), not when the response
+		// merely waits in the port buffer
 		var to string
 		switch m := ctx.Item.(type) {
 		case *mem.WriteDoneRsp:
@@ -379,6 +395,54 @@ func (h dmaHook) Func(ctx sim.HookCtx) {
 			o.fail("memory transaction 0x%x+%d was answered after %s had already reported its copy request 0x%x+%d complete", tx.addr, tx.n, h.gpu, p.addr, p.n)
 		}
 	}
+}
+
+// dmaCPHook watches the DMA engine's port to the command processor: the
+// engine's completion response of a copy request must not leave before every
+// memory transaction of that request was answered.
+type dmaCPHook struct {
+	o   *observer
+	gpu string
+}
+
+func (h dmaCPHook) Func(ctx sim.HookCtx) {
+	if ctx.Pos != sim.HookPosPortMsgSend {
+		return
+	}
+	rsp, ok := ctx.Item.(*sim.GeneralRsp)
+	if !ok {
+		return
+	}
+	var addr uint64
+	var n int
+	var h2d bool
+	switch m := rsp.OriginalReq.(type) {
+	case *protocol.MemCopyH2DReq:
+		addr, n, h2d = m.DstAddress, len(m.SrcBuffer), true
+	case *protocol.MemCopyD2HReq:
+		addr, n = m.SrcAddress, len(m.DstBuffer)
+	default:
+		return
+	}
+	o := h.o
+	for _, p := range o.open[h.gpu] {
+		if p.h2d != h2d || p.addr != addr || p.n != n {
+			continue
+		}
+		p.dmaRsps++
+		if p.dmaRsps > 1 {
+			o.fail("the DMA engine of %s reported the copy request 0x%x+%d of command %s complete %d times", h.gpu, addr, n, p.cmd.id, p.dmaRsps)
+		}
+		for _, tx := range p.txs {
+			if tx.answered == 0 {
+				o.fail("the DMA engine of %s reported the copy request 0x%x+%d of command %s complete at %.9f before its memory transaction 0x%x+%d was answered",
+					h.gpu, addr, n, p.cmd.id, float64(o.engine.CurrentTime()), tx.addr, tx.n)
+				return
+			}
+		}
+		return
+	}
+	o.fail("the DMA engine of %s reported a copy request 0x%x+%d complete that is not outstanding (%s)", h.gpu, addr, n, o.describeOpen(h.gpu))
 }
 
 func (o *observer) describeOpen(gpu string) string {
@@ -405,6 +469,7 @@ func attach(pl *plat.Platform) *observer {
 			o.nCPs++
 		case *cp.DMAEngine:
 			u.ToMem.AcceptHook(dmaHook{o, gpuOf(u.Name())})
+			u.ToCP.AcceptHook(dmaCPHook{o, gpuOf(u.Name())})
 			o.nDMAs++
 		}
 	}
